@@ -14,8 +14,8 @@ import (
 
 func init() {
 	register("C05", core.Spec{
-		Decides: "for every coroutine of std/ and of the liveness corpus, on the C the working tree's compiler generates: (1) liveness adequacy — every local variable that is live across some suspension point and may have been assigned before it (textbook backward may-liveness and forward may-assignment on a control-flow model of the Wuffs AST, computed by this checker independently of cgen's none/weak/strong analysis) is a field of the function's saved-state struct s_<func>; (2) every saved field is restored in the resume block and stored in the suspend block, with matching array copies, and nothing leaves the suspend block before the stores; (3) suspension-point labels inside the coroutine switch are exactly 1..n without duplicates, the resume index p_<func> is cleared on ok: and recorded on suspend:, and the switch is entered at point 0",
-		NotDecided: "the scratch-word protocol for partial multi-byte reads inside the I/O built-ins, locals that hold pointers (slices, tables, I/O tokens — cgen does not save them; whether each such use is safe is a value-level argument, listed as INFO only), re-evaluation purity of nested call arguments, and the actual equality of outputs under every split",
+		Decides: "for every coroutine of std/ and of the liveness corpus, on the C the working tree's compiler generates: (1) liveness adequacy — every local variable that is live across some suspension point and may have been assigned before it (textbook backward may-liveness and forward may-assignment on a control-flow model of the Wuffs AST, computed by this checker independently of cgen's none/weak/strong analysis) is a field of the function's saved-state struct s_<func>; (2) every saved field is restored in the resume block and stored in the suspend block, with matching array copies, and nothing leaves the suspend block before the stores; (3) suspension-point labels inside the coroutine switch are exactly 1..n without duplicates, the resume index p_<func> is cleared on ok: and recorded on suspend:, and the switch is entered at point 0; (4) the scratch word of partially completed I/O built-ins (multi-byte reads, skip, write_u8): code resumed at a suspension-point label never overwrites the scratch word before reading it when the stretch up to the next suspension records partial progress there (S1), every label after which the scratch word is read is entered right after its initialisation (S2), and cgen emits the scratch store before the suspension point in each lowering that uses it (S3)",
+		NotDecided: "the bit arithmetic of the scratch-word accumulation loop (that the value assembled from the partial reads is the right one), locals that hold pointers (slices, tables, I/O tokens — cgen does not save them; whether each such use is safe is a value-level argument, listed as INFO only), re-evaluation purity of nested call arguments, and the actual equality of outputs under every split",
 		Assumptions: []string{"the suspension-point model: `yield?` suspends after evaluating its value; a `?` call on an I/O token suspends after its arguments are evaluated (the built-in keeps partial state itself); any other `?` call is re-entered at the call statement and re-evaluates its arguments; `=?` is not a suspension point",
 			"local variables are re-zeroed on every entry, so a variable never assigned before a suspension point needs no save",
 			"the Wuffs front end (lang/token, parse, check) as parser/type annotator of std/*.wuffs"},
@@ -505,6 +505,7 @@ func runC05(c *core.Ctx) {
 	pkgs = append(pkgs, loadCorpus(c, cb, "liveness")...)
 	nCoro, sumM, sumM0, sumG, nCSPs, nWithSaved := 0, 0, 0, 0, 0, 0
 	sumMC, nCSPC := 0, 0
+	sst := &scratchStats{}
 	for _, p := range pkgs {
 		src, err := os.ReadFile(p.CPath)
 		if err != nil {
@@ -601,6 +602,8 @@ func runC05(c *core.Ctx) {
 					"in the generated C, every local (v_*, t_*) that is read after a suspension-point label before being reassigned, and that is assigned somewhere, is restored from the saved-state struct", ncspC+nLiveC,
 					fmt.Sprintf("generated function %s: not saved: %v — a resumed call would read the re-zeroed local", cname, missC))
 			}
+			// (4) the scratch word of partially completed I/O built-ins (c05_scratch.go).
+			checkScratchC(c, anchor, fname, cname, stmts, sst)
 		}
 	}
 	c.Analysed("coroutines", nCoro)
@@ -613,6 +616,12 @@ func runC05(c *core.Ctx) {
 	c.Analysed("suspension_point_labels_in_generated_C", nCSPC)
 	c.Floor("L1", "coroutines analysed", nCoro, 190)
 	c.Floor("L1.saved", "coroutines with at least one saved local", nWithSaved, 50)
+	c.Analysed("scratch_statements_in_generated_C", sst.touching)
+	c.Analysed("scratch_labels_resumed_with_partial_progress", sst.accum)
+	c.Analysed("scratch_labels_followed_by_a_scratch_read", sst.carrying)
+	c.Floor("S1", "suspension-point labels whose resumed code stores partial progress in the scratch word (multi-byte read loops, skip)", sst.accum, 190)
+	c.Floor("S2", "suspension-point labels after which the scratch word is read", sst.carrying, 200)
+	checkScratchCgen(c)
 }
 
 func checkResumeSuspend(c *core.Ctx, anchor, fname string, g map[string]bool, st []*core.CStmt, cfn *core.CFunc) {
